@@ -29,6 +29,24 @@ CHECKS = {
          "explicit-state BFS over Set histories on both implementations side by side + exhaustive pairs for equality laws"),
  "C18": (B, "4.C18", "All mutation histories (13 mutations x 2 sides) to the stated depth after Copy()/New()/Type.Copy() for both implementations; after every step everything readable from the other side must be unchanged.",
          "explicit-state BFS over mutation histories, 'other side unchanged' snapshot oracle"),
+ "C02": (A, "4.C02", "The complete product of 14 primary-data kinds x included lists x metas x error lists x prefixes x selections x relationship-data requests, all 256 member subsets of an error object and all pairs/triples of representative errors are marshaled and unmarshaled; kind of data, members in order, included set, meta and error members are compared by an oracle written in the harness.",
+         "complete enumeration of a finite document space on the real marshal/unmarshal code, independent comparator"),
+ "C03": (A + " + " + B, "4.C03", "Every document of the C02 product that marshals is parsed by an independent JSON:API structure validator; all Include sequences up to the stated depth over colliding resources for 7 primary-data implementations are explored breadth-first and every resulting document is validated and checked for duplicate type/ID pairs.",
+         "complete enumeration of documents + explicit-state BFS over Include histories, independent structure validator"),
+ "C05": (A, "4.C05", "All byte strings up to length 4 (thorough 6) over a 13-symbol alphabet, every truncation of 8 base payloads, all single (and double) kind-replacement deviations at every value position, a nesting ladder and the 28-kind x 16-value matrix, through 9 entry points and two schemas: no panic, error xor result, on-schema results.",
+         "bounded exhaustive enumeration of byte strings and of deviations from valid payloads (deviation bound 1-2)"),
+ "C07": (A, "4.C07", "Every path of 0..6 fragments over per-position alphabets and every ordered sequence of up to 2 (thorough 3) parameters from a ~100-instance menu on 16 paths, with the iteration order of the query map as a deviation-bounded choice; the result is judged against an independent reading of the request.",
+         "bounded exhaustive enumeration of URL shapes + map-iteration schedules (deviation bound 1), independent request reader"),
+ "C08": (A, "4.C08", "Every accepted URL of the C07 query space, reserved characters at 6 positions, all bounded filter trees: String() -> parse -> same URL -> same String(), and every permutation of parameters / list items yields the same String().",
+         "bounded exhaustive enumeration of accepted URLs and of their permutations, fixpoint oracle"),
+ "C09": (A, "4.C09", "28 kinds x 4 collection implementations x every value assignment of a 3-value alphabet to 3 (thorough 4) resources x all 31 rule lists x ALL initial orders x page sizes; ID subsets x filters x page geometries incl. sizes >= 2^63: compared with an independent select/filter/comparator/slice.",
+         "bounded exhaustive enumeration of collections, initial orders, rules and page geometry vs reference sort"),
+ "C11": (A, "4.C11", "For 8 base documents every map-iteration order of every loop instance met while marshaling is an environment choice (all executions with <= 1, thorough 2, deviating loops; uniform reversed/rotated schedules); all permutations of the order-irrelevant content; repetition: byte-identical output and unchanged inputs.",
+         "stateless exploration of map-iteration schedules (deviation-bounded) + exhaustive content permutations"),
+ "C12": (C + " + " + A, "4.C12", "Every operation run alone under a snapshot monitor that re-hashes the shared schema after every statement (no write step => by the lemma no interleaving has one); all schedules of 2 and 3 threads with bounded preemptions at function-entry (thorough: statement) granularity compared with solo results; operation sequences from non-initial states; separate free-running -race pass.",
+         "cooperative scheduler exploring all schedules up to a preemption bound + per-statement snapshot monitor (race detector pass as supporting evidence)"),
+ "C20": (A, "4.C20", "ALL struct shapes over 7 ID forms and 0..2 further fields from 15 Go types x 10 api tags x 4 json tags (full alphabet pairs in thorough: 2.5M shapes), built with reflect.StructOf, by value and by pointer: Check accepts => everything works and built type = independently predicted type; Check rejects => BuildType errors and Wrap panics.",
+         "complete enumeration of struct shapes (run-time types), independent tag reader"),
  "C19": (B, "4.C19", "All histories of 19 SoftCollection operations to the stated depth vs an ordered-list model, observing Len/At/Resource/GetType/Get after every step.",
          "explicit-state BFS over operation histories of the real collection vs list model"),
 }
